@@ -202,6 +202,26 @@ def _geometry_pairs(tier):
                 yield dom, rng, [(0, 0), (1, 1)] if dom in ("default1d", "image2d_C") else [(0, 0)]
 
 
+def _option_pairs(tier):
+    """(domain kind, range kind, size variants) of the option variants of the expansion geometries (hidden constructor
+    options: KLExpansion decay_rate / normalizer, KLExpansion_Full std / cor_len / nu, CustomKL mean / std / cov_func /
+    trunc_term, StepExpansion fun2par_projection / n_steps; checks/_c12_models.py).  The base kind of each family is
+    crossed with every partner in the basic product (KLExpansion_Full / CustomKL, which have no fun2par, as domain only);
+    an option variant changes nothing but numbers inside the geometry's own maps, so it is crossed with a covering
+    subset: as domain with {plain 1-D range, an equal copy of itself (if it has a fun2par), one option-variant range},
+    as range with {plain 1-D domain, one option-variant domain}."""
+    quick = tier == "quick"
+    nd, nr = M.OPT_DOM_KINDS, M.OPT_RNG_KINDS
+    for i, dom in enumerate(nd):
+        partner = nr[i % len(nr)]
+        rngs = ["default1d", partner] + ([EQ_RANGE] if (M.has_fun2par(dom) and (not quick or i % 2 == 0)) else [])
+        for rng in rngs:
+            yield dom, rng, [(0, 0)] if (quick or rng == EQ_RANGE) else [(0, 0), (1, 1)]
+    for i, rng in enumerate(nr):
+        for dom in ["default1d", nd[(3 * i + 2) % len(nd)]]:
+            yield dom, rng, [(0, 0)] if quick else [(0, 0), (1, 1)]
+
+
 def cells(tier, seed):
     k = refs.cat(seed)
     npts = 1 if tier == "quick" else 3
@@ -229,6 +249,26 @@ def cells(tier, seed):
         for vd in ([0] if tier == "quick" else [0, 1]):
             yield {"model": model, "dom": "default1d", "rng": "default1d", "vd": vd, "vr": vd, "cat": k,
                    "npts": npts, "allw": allw}
+    # option variants of the expansion geometries (covering subset of partners; quick: a covering subset of model kinds)
+    for model in (M.OPT_MODELS_QUICK if tier == "quick" else models):
+        for dom, rng, variants in _option_pairs(tier):
+            if model in M.DERIVED_MODELS_THOROUGH:
+                variants = variants[:1]
+            for vd, vr in variants:
+                yield {"model": model, "dom": dom, "rng": rng, "vd": vd, "vr": vr, "cat": k, "npts": npts, "allw": allw}
+    # process-history facet: a decoy (same model kind, same geometry kind family, role and size, OTHER option values) is
+    # built and evaluated in the same process, interleaved with the model under test in every order (quick: the two
+    # extreme orders); the judged batteries are those of the quick tier
+    orders = M.HISTORY_ORDERS_QUICK if tier == "quick" else M.HISTORY_ORDERS
+    for model in (M.HISTORY_MODELS_QUICK if tier == "quick" else M.HISTORY_MODELS):
+        for role in ("dom", "rng"):
+            for kind, decoy in M.HISTORY_PAIRS[role]:
+                dom, rng = (kind, "default1d") if role == "dom" else ("default1d", kind)
+                if M.needs_1d_function_spaces(model) and not M.lin_mat_applicable(dom, rng):
+                    continue
+                for order in orders:
+                    yield {"model": model, "dom": dom, "rng": rng, "vd": 0, "vr": 0, "cat": k, "npts": 1, "allw": False,
+                           "decoy": {role: decoy}, "order": order}
 
 
 # --------------------------------------------------------------------------------------------------
@@ -391,8 +431,9 @@ class _Raw(list):
         return {(f["op"], f["kind"], f["rep"], f["wrep"], f["drep"]) for f in self}
 
 
-def _check_geometry_reference(res, raw, g, lib, k):
-    """The dense reference maps must agree with the library geometry (else: not C12's business)."""
+def _check_geometry_reference(res, raw, g, lib, k, history=""):
+    """The dense reference maps (written from the geometry's own constructor options) must agree with the library
+    geometry at the moment the model under test is judged - in a history cell: after the decoy was built / evaluated."""
     p = refs.dyadic_vec(g.n, k + 1, scale=0.125)
     bad = []
     try:
@@ -401,18 +442,20 @@ def _check_geometry_reference(res, raw, g, lib, k):
             bad.append("par2fun")
     except Exception:  # noqa
         bad.append("par2fun")
-    try:
-        b = lib.fun2par(np.array(g.p2f(p)))
-        if not close(_flat(b), g.f2p(g.p2f(p)), 1e-10):
+    if g.has_f2p:
+        try:
+            b = lib.fun2par(np.array(g.p2f(p)))
+            if not close(_flat(b), g.f2p(g.p2f(p)), 1e-10):
+                bad.append("fun2par")
+        except Exception:  # noqa
             bad.append("fun2par")
-    except Exception:  # noqa
-        bad.append("fun2par")
-    res.transitions += 2
+    res.transitions += 2 if g.has_f2p else 1
     if bad:
         raw.add("geometry-map", type(lib).__name__,
-                "the geometry's own %s differ(s) from the documented map (kind %s: for a MappedGeometry par2fun = map o "
-                "base.par2fun and fun2par = base.fun2par o imap); cell not judged" % ("/".join(bad), g.kind),
-                rep="+".join(bad))
+                "the geometry's own %s differ(s) from the documented map of ITS OWN constructor options (kind %s: for a "
+                "MappedGeometry par2fun = map o base.par2fun and fun2par = base.fun2par o imap)%s; parameter inputs are "
+                "converted with it, function-value inputs are not; cell not judged further"
+                % ("/".join(bad), g.kind, history), rep="+".join(bad))
     return not bad
 
 
@@ -612,6 +655,63 @@ def _battery(res, raw, op, apply, extra_routes, gi, go, lgi, lgo, pts, refs_at, 
     ledger.audit(res, raw, "after the %s battery" % op)
 
 
+def _build(cell, kinds=None):
+    """Reference geometries + model of a cell; `kinds` overrides the geometry kind of a role (decoy of a history cell):
+    same role, same size variant, same model kind, same value catalogue."""
+    k = cell["cat"]
+    dom = (kinds or {}).get("dom") or cell["dom"]
+    rng = (kinds or {}).get("rng") or cell["rng"]
+    gd = M.RefGeom(dom, "dom", cell["vd"], k)
+    if rng == EQ_RANGE:
+        # an equal copy of the domain geometry (a derivative attached to the domain is not copied)
+        gr = M.RefGeom(dom.replace("_grad", ""), "dom", cell["vd"], k)
+    else:
+        gr = M.RefGeom(rng, "rng", cell["vr"], k)
+    return gd, gr, M.build_model(cell["model"], gd, gr, k)
+
+
+def _exercise(res, raw, who, b, gd, gr, k, keep):
+    """One evaluation of a model in every input representation (generic point): parameter vector, function values,
+    CUQIarray in both representations, a 2-column sample collection, adjoint and gradient.  Used for the decoy of a
+    history cell (not judged: it is the model under test of the sibling cell) and for the first use of the model under
+    test (its outputs are kept in the ledger and must still read the same at the end of the cell)."""
+    from cuqi.array import CUQIarray
+    from cuqi.samples import Samples
+    model = b.model
+    if model is None:
+        return
+    try:
+        dg, rg = model.domain_geometry, model.range_geometry
+        n, m = int(model.domain_dim), int(model.range_dim)
+    except Exception:  # noqa
+        return
+    if n != gd.n or m != gr.n:
+        return                                     # (a derived model with wrong geometries: judged by its own check)
+    p = refs.dyadic_vec(n, k + 1, scale=0.125)
+    F = np.array(gd.p2f(p), dtype=float)
+    y = refs.dyadic_vec(m, k + 2, scale=0.125)
+    calls = [("forward", "par", lambda: model.forward(p.copy())),
+             ("forward", "fun", lambda: model.forward(F.copy(), is_par=False)),
+             ("forward", "cuqi-par", lambda: model.forward(CUQIarray(p.copy(), is_par=True, geometry=dg))),
+             ("forward", "cuqi-fun", lambda: model.forward(CUQIarray(F.copy(), is_par=False, geometry=dg))),
+             ("forward", "samples", lambda: model.forward(Samples(np.stack([p, 0.5 * p], axis=1), geometry=dg)))]
+    if hasattr(model, "adjoint") and gd.has_f2p:
+        calls += [("adjoint", "par", lambda: model.adjoint(y.copy())),
+                  ("adjoint", "cuqi-par", lambda: model.adjoint(CUQIarray(y.copy(), is_par=True, geometry=rg)))]
+    calls.append(("gradient", "direction=par,wrt=par", lambda: model.gradient(y.copy(), p.copy())))
+    res.state("history:%s-evaluated" % who)
+    for op, rep, call in calls:
+        res.transitions += 1
+        try:
+            out = call()
+        except Exception as e:  # noqa
+            res.outcomes.add("hist:%s:%s:%s:raise:%s" % (who, op[:3], rep, type(e).__name__))
+            continue
+        res.outcomes.add("hist:%s:%s:%s:ok" % (who, op[:3], rep))
+        if keep:
+            raw.ledger.keep_output(op, rep, "first use", out)
+
+
 def _explore(res, cell):
     """Complete exploration of one cell on the real code; returns the raw failures."""
     import cuqi  # noqa
@@ -620,13 +720,30 @@ def _explore(res, cell):
     raw = _Raw()
     k = cell["cat"]
     name = cell["model"]
-    gd = M.RefGeom(cell["dom"], "dom", cell["vd"], k)
-    if cell["rng"] == EQ_RANGE:
-        # an equal copy of the domain geometry (a derivative attached to the domain is not copied)
-        gr = M.RefGeom(cell["dom"].replace("_grad", ""), "dom", cell["vd"], k)
+    decoy = cell.get("decoy")
+    history = ""
+    if not decoy:
+        gd, gr, b = _build(cell)
     else:
-        gr = M.RefGeom(cell["rng"], "rng", cell["vr"], k)
-    b = M.build_model(name, gd, gr, k)
+        # process history: the events D (decoy built), d (decoy evaluated), M (model under test built), m (model under
+        # test evaluated for the first time) in the order of the cell; the judged batteries follow
+        res.state("history:" + cell["order"])
+        history = (" [history %s: a decoy %s of the same kind, role and size with other constructor options lives in the "
+                   "same process]" % (cell["order"], "/".join("%s=%s" % kv for kv in sorted(decoy.items()))))
+        dec = None
+        for ev in cell["order"]:
+            if ev == "D":
+                try:
+                    dec = _build(cell, decoy)
+                except Exception as e:  # noqa  the decoy is the model under test of a sibling cell: judged there
+                    res.outcomes.add("hist:decoy-build:raise:%s" % type(e).__name__)
+            elif ev == "d":
+                if dec is not None:
+                    _exercise(res, raw, "decoy", dec[2], dec[0], dec[1], k, keep=False)
+            elif ev == "M":
+                gd, gr, b = _build(cell)
+            else:
+                _exercise(res, raw, "model", b, gd, gr, k, keep=True)
     model = b.model
     if model is None:
         raw.mcls = "LinearModel"
@@ -650,7 +767,7 @@ def _explore(res, cell):
             return raw
     if model.domain_dim != n or model.range_dim != m:
         raise AssertionError("harness: dimension bookkeeping %s" % cell)
-    if not (_check_geometry_reference(res, raw, gd, dg, k) and _check_geometry_reference(res, raw, gr, rg, k)):
+    if not (_check_geometry_reference(res, raw, gd, dg, k, history) and _check_geometry_reference(res, raw, gr, rg, k, history)):
         return raw
 
     def ref(p):
@@ -696,7 +813,9 @@ def _explore(res, cell):
                     lambda: CUQIarray(F.copy(), is_par=False, geometry=dg2), lambda x: model.forward(x))
 
     # ---- 2b. the adjoint of a linear model is an application range -> domain: same representations ----------------
-    if hasattr(model, "adjoint") and hasattr(b, "fT"):
+    if hasattr(model, "adjoint") and hasattr(b, "fT") and not gd.has_f2p:
+        res.count("adjoint-not-formable(domain geometry without fun2par)")
+    if hasattr(model, "adjoint") and hasattr(b, "fT") and gd.has_f2p:
         def aref(y):
             return _flat(gd.f2p(b.fT(gr.p2f(y))))
         ypts = [("e%d" % i, np.eye(m)[:, i].copy()) for i in range(m)]
@@ -1019,6 +1138,12 @@ def _emit(res, cell, raw):
             sib = "kl_grad" if kind != "kl_grad" else "step_grad"
             if persists(f, **{which: sib}):
                 return "*_grad"
+        ok = M.parse_opt_kind(kind)
+        if ok is not None and ok[1]:
+            # an option variant of an expansion geometry: does the failure need this option value?
+            basekind = ok[0] + ("_grad" if ok[2] else "")
+            if persists(f, **{which: basekind}):
+                return basekind
         if M.parse_map_kind(kind) is not None:
             # a kind of the MappedGeometry alphabet: does the failure need this map and this base?
             if persists(f, **{which: "mapped"}):
@@ -1030,10 +1155,17 @@ def _emit(res, cell, raw):
                     return "map_nonelementwise_reshaping"
         return kind
 
+    def hist_label(f):
+        """The process-history facet stays in the signature only if the failure disappears (in this process) when the
+        decoy is neither built nor evaluated."""
+        if not cell.get("decoy") or persists(f, decoy=None):
+            return ""
+        return ",history=%s" % cell["order"]
+
     groups = {}
     for f in raw:
         if f["op"] == "geometry-map":
-            res.fail("C12|%s|geometry-map|%s" % (f["kind"], f["rep"]), f["message"])
+            res.fail("C12|%s|geometry-map|%s%s" % (f["kind"], f["rep"], hist_label(f)), f["message"])
             continue
         if f["op"] == "rename":
             comp = "Model" if (mcls != "Model" and not inferred and persists(f, model="nograd")) else derived_label(f, mcls)
@@ -1049,6 +1181,7 @@ def _emit(res, cell, raw):
             geo = "dom=%s,rng=%s" % (geo_label(f, "dom"), rlab)
         else:
             geo = "dom=%s,rng=%s" % (geo_label(f, "dom"), geo_label(f, "rng"))
+        geo += hist_label(f)
         comp, mlab = mcls, name
         if f["op"] == "gradient":
             # the kind of derivative information is a facet only if the failure needs it
